@@ -59,6 +59,15 @@ struct c04_session : public vsim_session {
         int const sb = abf->current_bin();
         o << " scr " << sb << " " << abf->bin_count(sb) << " " << abf->bin_num() << " " << abf->local_sample_count(0);
       }
+      // eABF: the value the bias bins (the extended coordinate) and the CZAR grids z_samples / z_gradients
+      o << " xv";
+      for (size_t i = 0; i < abf->colvars.size(); i++) o << " " << vs_hex(abf->colvars[i]->value().real_value);
+      if (abf->z_gradients) {
+        o << " zc";
+        for (size_t k = 0; k < abf->z_samples->data.size(); k++) o << " " << abf->z_samples->data[k];
+        o << " zs";
+        for (size_t k = 0; k < abf->z_gradients->data.size(); k++) o << " " << vs_hex(abf->z_gradients->data[k]);
+      }
       o << " per";
       for (size_t i = 0; i < abf->gradients->periodic.size(); i++) o << " " << (abf->gradients->periodic[i] ? 1 : 0);
       o << " nx";
